@@ -384,7 +384,9 @@ class IntervalTier(textgrid_tier.TextgridTier):
                     # so if we've found it, move on
                     break
 
-            newMax = newTier.maxTimestamp - diff
+            # A span that ended where the erased region ended now ends where
+            # it started (end - diff may differ from start by a rounding error)
+            newMax = start if newTier.maxTimestamp == end else newTier.maxTimestamp - diff
             newTier = newTier.new(entries=newEntryList, maxTimestamp=newMax)
 
         return newTier
